@@ -186,6 +186,8 @@ class ModelMixin(ModelMixin2, ModelMixin3):
         return res
 
     def truth(self, v: Val, st: State, node):
+        if isinstance(v, (NoneV, NumV)) or (isinstance(v, Const) and isinstance(v.v, (int, float)) and not isinstance(v.v, bool)):
+            self.hook('truth-val', st, node, val=v)
         if isinstance(v, NoneV):
             return [(False, st)]
         if isinstance(v, Const):
